@@ -211,8 +211,8 @@ def run_coq_shard(vfile):
     return vfile, rc, out, time.time() - t0
 
 
-def stream_dir(stream, seed, tier):
-    key = "%s-%s-%s-%s-%s" % (stream, repo_hash(), machinery_hash(), seed, tier)
+def stream_dir(stream, seed, tier, profiles=("debug",)):
+    key = "%s-%s-%s-%s-%s-%s" % (stream, "+".join(profiles), repo_hash(), machinery_hash(), seed, tier)
     return os.path.join(BUILD, "streams", key)
 
 
@@ -222,7 +222,7 @@ def run_stream(stream, profiles, seed, tier, extra_args=""):
     Result (cached on disk, keyed by repo content, machinery content, seed, tier):
       {ok, build_error, evaluations, disagreements:[{id, profile, expected, model, case}], meta:{profile:..}, wall_s}
     """
-    d = stream_dir(stream, seed, tier)
+    d = stream_dir(stream, seed, tier, profiles)
     resf = os.path.join(d, "result.json")
     with Lock("stream_" + stream):
         if os.path.exists(resf):
